@@ -11,9 +11,9 @@ def run(res, ctx):
     if "depth" in ctx["opts"]:
         args = ["--depth", ctx["opts"]["depth"]]
     if tier == "quick":
-        runner.run_harness(res, SRC, "asan", tier, args=args, deadline=200, timeout=600, shards=16)
+        runner.run_harness(res, SRC, "asan", tier, args=args, deadline=480, timeout=1200, shards=16)
     else:
-        runner.run_harness(res, SRC, "asan", tier, args=args, deadline=1500, timeout=2400, shards=16)
+        runner.run_harness(res, SRC, "asan", tier, args=args, deadline=2400, timeout=3600, shards=16)
 
 
 def replay(res, path, ctx):
